@@ -174,6 +174,7 @@ RecDev(r, s) ==
 (*   relative (ToRelativeName):                                             *)
 (*     <<"rflat", o, labels>>              RelativeName over octets kind o  *)
 (*     <<"rchain", rel, rel>>              Chain<Rel, Rel>                  *)
+(*     <<"rref", rel>>                     &T                               *)
 (*   absolute (ToName):                                                     *)
 (*     <<"flat", o, name>>                 Name over octets kind o          *)
 (*     <<"parsed", cuts, hops, name>>      ParsedName inside a message:     *)
@@ -195,7 +196,9 @@ RecDev(r, s) ==
 (* (NameObs, NamePairExp, CanonRd, RecCanonWire).                           *)
 
 RECURSIVE RelLabels(_)
-RelLabels(c) == IF c[1] = "rflat" THEN c[3] ELSE RelLabels(c[2]) \o RelLabels(c[3])
+RelLabels(c) == IF c[1] = "rflat" THEN c[3]
+                ELSE IF c[1] = "rref" THEN RelLabels(c[2])
+                ELSE RelLabels(c[2]) \o RelLabels(c[3])
 RECURSIVE Denote(_)
 Denote(c) ==
   CASE c[1] = "flat"      -> c[3]
@@ -208,8 +211,9 @@ Denote(c) ==
 FlatKinds == {"vec", "bytes", "array", "slice"}
 RECURSIVE WfRel(_)
 WfRel(c) ==
-  /\ c[1] \in {"rflat", "rchain"}
+  /\ c[1] \in {"rflat", "rchain", "rref"}
   /\ IF c[1] = "rflat" THEN Len(c) = 3 /\ c[2] \in FlatKinds /\ ValidRel(c[3])
+     ELSE IF c[1] = "rref" THEN Len(c) = 2 /\ WfRel(c[2])
      ELSE Len(c) = 3 /\ WfRel(c[2]) /\ WfRel(c[3])
 RECURSIVE WfAbsParts(_)
 WfAbsParts(c) ==
@@ -230,6 +234,7 @@ WfAbs(c) == WfAbsParts(c) /\ ValidAbs(Denote(c))
 RECURSIVE RelWire(_, _)
 RelWire(c, canon) ==
   IF c[1] = "rflat" THEN ToWireRel(IF canon THEN LowerName(c[3]) ELSE c[3])
+  ELSE IF c[1] = "rref" THEN RelWire(c[2], canon)
   ELSE RelWire(c[2], canon) \o RelWire(c[3], canon)
 RECURSIVE CWire(_, _, _)
 CWire(c, canon, mut) ==
@@ -244,7 +249,9 @@ CWire(c, canon, mut) ==
     [] c[1] = "chainroot" -> RelWire(c[2], canon) \o <<0>>
     [] c[1] = "ref"       -> CWire(c[2], canon, mut)
 RECURSIVE RelLen(_)
-RelLen(c) == IF c[1] = "rflat" THEN WireLenRel(c[3]) ELSE RelLen(c[2]) + RelLen(c[3])
+RelLen(c) == IF c[1] = "rflat" THEN WireLenRel(c[3])
+             ELSE IF c[1] = "rref" THEN RelLen(c[2])
+             ELSE RelLen(c[2]) + RelLen(c[3])
 RECURSIVE CLen(_, _)
 CLen(c, mut) ==
   CASE c[1] = "flat"      -> WireLenAbs(c[3])
@@ -269,6 +276,18 @@ CarrierObs(c, mut) ==
    is_root |-> Denote(c) = <<>>, hash_ok |-> TRUE, issues |-> <<>>]
 CarrierLawM(c, mut) == CarrierObs(c, mut) = NameObs(Denote(c))
 CarrierLaw(c) == CarrierLawM(c, {})
+
+\* the same for a relative name (no root label); with_root: what the name
+\* made absolute by chain_root composes to
+RelObs(n) ==
+  [compose |-> ToWireRel(n), canon |-> LowerSeq(ToWireRel(n)), len |-> WireLenRel(n),
+   labels |-> n, is_empty |-> n = <<>>, with_root |-> ToWireAbs(n), issues |-> <<>>]
+RelCarrierObs(c) ==
+  [compose |-> RelWire(c, FALSE), canon |-> RelWire(c, TRUE), len |-> RelLen(c),
+   labels |-> RelLabels(c), is_empty |-> RelLabels(c) = <<>>,
+   with_root |-> CWire(<<"chainroot", c>>, FALSE, {}), issues |-> <<>>]
+RelCarrierLaw(c) == RelCarrierObs(c) = RelObs(RelLabels(c))
+WfRelTop(c) == WfRel(c) /\ ValidRel(RelLabels(c))
 
 \* a pair of names, however carried
 NamePairExp(m, n) ==
